@@ -19,6 +19,7 @@ from __future__ import annotations
 import asyncio
 import io
 import json
+import os
 import re
 
 from .. import coqterm as T
@@ -371,6 +372,161 @@ def section_crashes(ctx) -> None:
                                            'server serves for some k'})
 
 
+# ------------------------------------- DELETE and external deliveries (round 5)
+XW = {'delete': 4, 'deliver': 3, 'create': 4, 'noop': 0, 'rename': 1, 'copy': 2, 'move': 2}
+
+
+def fixed_xhistories(layout: str = 'fs') -> list:
+    A = lambda f, *ms: ('append', f, list(ms))
+    D = lambda f, cid, sub='new', info='': ('deliver', f, sub, info, cid)
+    return [
+        # DELETE of a folder with messages, then CREATE of the same name
+        [('create', ['foo']), A(['foo'], ('S', 1), ('', 2)), ('subscribe', ['foo']),
+         ('select', ['foo']), ('store', [1], '+', 'F'), ('close',), ('delete', ['foo']),
+         ('create', ['foo']), A(['foo'], ('', 3)), ('examine', ['foo'])],
+        # deliveries into INBOX and a folder, adopted by the next scan
+        [A([], ('', 1)), D([], 50), ('examine', []), ('create', ['foo']), D(['foo'], 51),
+         ('examine', ['foo']), D(['foo'], 52, 'cur', '2,S'), ('examine', ['foo']), ('select', ['foo']),
+         # the highest uid is expunged and its record dropped: the next adopted
+         # file must not get it back
+         ('store', [2], '+', 'T'), ('expunge',), ('check',), D(['foo'], 53), ('examine', ['foo']),
+         ('close',), ('delete', ['foo'])],
+        # parent and child; refused deletions
+        [('create', ['foo']), ('create', ['foo', 'bar']), A(['foo', 'bar'], ('', 1)),
+         ('delete', []), ('delete', ['foo']), ('delete', ['foo', 'bar'])]
+        # (++: the parent is gone by now, and the rmdir of a missing directory
+        #  fails: not usable in a crash numbering)
+        + ([('delete', ['foo'])] if layout == 'fs' else [])
+        + [('create', ['foo']), D(['foo'], 54), ('examine', ['foo'])],
+    ]
+
+
+def _xreport_reference(ctx, r, clause_bye='served_after_restart') -> bool:
+    ref = r.get('ref')
+    if not ref or ref.get('error') or 'cmds' not in ref:
+        ctx.broken.append('reference run failed: ' + json.dumps(
+            {'history': r['history'], 'error': ref and ref.get('error')})[:500])
+        return False
+    bye = [c for c in ref['cmds'] if c['status'] in ('BYE', 'NONE', 'BAD')]
+    for c in bye:
+        ctx.failure(clause_bye, f'{c["cmd"]} ended in {c["status"]}: {c["resp"][:120]} '
+                    f'{c.get("exc")}', {'layout': r['layout'], 'history': r['history']},
+                    {'kind': 'command_failed'})
+    for clause, text, obs in MM.reference_failures(r):
+        ctx.failure(clause, text, {'layout': r['layout'], 'history': r['history']}, obs)
+    return not bye
+
+
+def section_xcrashes(ctx) -> None:
+    """Histories with DELETE and external deliveries: operation traces against
+    Delete.run_xcmd, and the kill-and-restart enumeration over every operation
+    boundary (in particular every crash point of every DELETE)."""
+    rng = ctx.rng
+    jobs = []
+    for lay in ('++', 'fs'):
+        for h in fixed_xhistories(lay):
+            jobs.append({'layout': lay, 'history': h})
+    for i in range(ctx.scale(3, 25)):
+        lay = rng.choice(['++', 'fs'])
+        jobs.append({'layout': lay,
+                     'history': MM.gen_history(rng, rng.randint(5, 9), weights=XW, layout=lay)})
+    nkill = ctx.scale(1, 4)
+
+    def pick(total):
+        return range(total + 1)
+
+    def pick_kills(total):
+        return rng.sample(range(total + 1), min(nkill, total + 1))
+    results = M.crash_campaign(jobs, pick, pick_kills)
+    # trace-only histories (a DELETE of a missing folder attempts an rmdir
+    # that fails in the ++ layout: not usable as a crash numbering)
+    tjobs = []
+    for i in range(ctx.scale(3, 25)):
+        lay = rng.choice(['++', 'fs'])
+        tjobs.append({'layout': lay, 'history': MM.gen_history(
+            rng, rng.randint(6, 12), weights=XW, layout=lay, failing_delete=True)})
+    tjobs.append({'layout': '++', 'history': [('create', ['foo']), ('delete', ['nonexistent']),
+                                             ('delete', ['foo']), ('delete', ['foo'])]})
+    tresults = M.run_experiments([dict(j, ks=None, id=i) for i, j in enumerate(tjobs)])
+    hcases, hkeep, ccases, ckeep = [], [], [], []
+    points = kills = dpoints = 0
+    hist: dict = {}
+    for r in list(results) + list(tresults):
+        if not _xreport_reference(ctx, r):
+            continue
+        ref = r['ref']
+        case, unknown = MM.xhistory_case(r)
+        if unknown:
+            ctx.disagreement('xhistory', {'what': 'filesystem call outside the modelled paths',
+                                          'events': unknown[:4], 'history': r['history']})
+        hcases.append(case)
+        hkeep.append(r)
+        for c in ref['cmds']:
+            if c['cmd'][0] in ('delete', 'deliver') or (c['cmd'][0] == 'examine'
+                                                        and len(c['events']) > 2):
+                hist[c['cmd'][0]] = hist.get(c['cmd'][0], 0) + 1
+            ctx.count(('xtrace', r['layout'], json.dumps(c['cmd']), len(c['events'])),
+                      nontrivial=len(c['events']) > 2)
+        if r.get('ref_locks'):
+            ctx.failure('control_files_readable', f'lock files left by a clean run: {r["ref_locks"]}',
+                        {'history': r['history']}, {'kind': 'lock_leak'})
+        if not r.get('crashes'):
+            continue
+        ok = True
+        # which operation indices belong to a DELETE
+        spans, n = [], 0
+        for c in ref['cmds']:
+            if c['cmd'][0] == 'delete':
+                spans.append((n, n + len(c['events'])))
+            n += len(c['events'])
+        for kl in r['kills']:
+            kills += 1
+            ctx.count(('xkill', r['layout'], json.dumps(r['history']), kl['k']))
+            if not MM.determinism_ok(r, kl):
+                ctx.broken.append(f'harness: killed run at k={kl["k"]} did not replay the '
+                                  f'reference trace ({r["history"]})')
+                ok = False
+            elif not MM.kill_matches_copy(r, kl):
+                ctx.disagreement('kill_vs_copy', {
+                    'what': 'a process really killed at k leaves another state than the '
+                            'copy of the directory taken at k', 'k': kl['k'],
+                    'history': r['history'], 'layout': r['layout']})
+            for clause, text, obs in MM.durability_failures(r, kl):
+                ctx.failure(clause, text, {'layout': r['layout'], 'history': r['history'],
+                                           'k': kl['k'], 'real_kill': True}, obs)
+        for cr in r['crashes']:
+            points += 1
+            if any(a < cr['k'] <= b_ for a, b_ in spans):
+                dpoints += 1
+            ctx.count(('xcrash', r['layout'], json.dumps(r['history']), cr['k']))
+            for clause, text, obs in MM.durability_failures(r, cr):
+                ctx.failure(clause, text, {'layout': r['layout'], 'history': r['history'],
+                                           'k': cr['k']}, obs)
+        if ok:
+            ccases.append(MM.xcrash_case(r))
+            ckeep.append(r)
+    ctx.extra['x_commands_traced'] = hist
+    ctx.extra['x_crash_points'] = points
+    ctx.extra['x_crash_points_inside_delete'] = dpoints
+    ctx.extra['x_real_kills'] = kills
+    if hkeep:
+        ctx.sample({'xhistory': hkeep[0]['history']})
+    bad = ctx.run_cases('xhistory', MM.XHEADER,
+                        'layout * fs * list (xcmd * list fsop * ack) * fs',
+                        hcases, 'xchk_history', shard=6)
+    for i in bad[:5]:
+        ctx.disagreement('xhistory', {'layout': hkeep[i]['layout'], 'history': hkeep[i]['history'],
+                                      'what': 'operation trace / status / final directory differ '
+                                              'from Delete.run_xcmd'})
+    bad = ctx.run_cases('xcrash', MM.XHEADER,
+                        'layout * fs * list xcmd * list (nat * bool * odump)',
+                        ccases, 'xchk_crash', shard=2)
+    for i in bad[:5]:
+        ctx.disagreement('xcrash', {'layout': ckeep[i]['layout'], 'history': ckeep[i]['history'],
+                                    'what': 'recover (crash k ops) differs from what a fresh '
+                                            'server serves for some k'})
+
+
 # ------------------------------------------------ two connections, one folder
 def _literal(cid: int) -> bytes:
     return M.message_bytes(cid)
@@ -516,10 +672,14 @@ def run(ctx) -> None:
         'control files are ASCII; numerals are plain digit strings',
     ]
     import time
-    ctx.check_proofs(['MaildirFS/Check'])
+    ctx.check_proofs(['MaildirFS/Check', 'MaildirFS/DeleteCheck'])
     timing = ctx.extra.setdefault('section_wall_s', {})
+    only = [x for x in (os.environ.get('VERIF_C15_SECTIONS') or '').split(',') if x]
     for name, sec in (('text', section_text), ('histories', section_histories),
-                      ('contention', section_contention), ('crashes', section_crashes)):
+                      ('contention', section_contention), ('crashes', section_crashes),
+                      ('xcrashes', section_xcrashes)):
+        if only and name not in only:       # development aid: a subset of the sections
+            continue
         t0 = time.time()
         sec(ctx)
         timing[name] = round(time.time() - t0, 1)
